@@ -17,6 +17,7 @@ import (
 
 	"github.com/pokt-network/posmint/crypto"
 	"github.com/pokt-network/posmint/crypto/keys"
+	"github.com/pokt-network/posmint/crypto/keys/mintkey"
 	sdk "github.com/pokt-network/posmint/types"
 	"github.com/pokt-network/posmint/x/auth"
 
@@ -324,6 +325,9 @@ func (f *Fam) Gen(r *rand.Rand, i int) string {
 		if r.Intn(15) == 0 {
 			return fmt.Sprintf("mon.sigsplit %s %d", []string{"ed25519", "secp256k1"}[r.Intn(2)], r.Int63())
 		}
+		if r.Intn(300) == 0 { // rare: three key-derivation rounds each
+			return fmt.Sprintf("mon.foreignkey %s %d", []string{"ed25519", "secp256k1"}[r.Intn(2)], r.Int63())
+		}
 		if r.Intn(6) == 0 { // the ante handler's signature-depth count on a multisignature key, limits around its size
 			for pk.Leaf() {
 				pk = genPK(r, 3)
@@ -445,6 +449,45 @@ func (f *Fam) Exec(op string) (obs string, fails []common.Failure) {
 			fail("multisig-iff", "C19:multisig-verify", fmt.Sprintf("%s: VerifyBytes=%v, every key signed in its own position=%v", op, ok, want))
 		}
 		return strconv.FormatBool(ok), fails
+	case "mon.foreignkey": // C19: a key of either type made elsewhere, imported into a keybase of its own: found, used and exported under its own address
+		seed, _ := strconv.ParseInt(w[2], 10, 64)
+		rr := rand.New(rand.NewSource(seed))
+		secret := make([]byte, 32)
+		rr.Read(secret)
+		var priv crypto.PrivateKey
+		if w[1] == "ed25519" {
+			priv = crypto.Ed25519PrivateKey{}.PrivKeyToPrivateKey(ed25519.GenPrivKeyFromSecret(secret))
+		} else {
+			priv = crypto.Secp256k1PrivateKey{}.PrivKeyToPrivateKey(secp256k1.GenPrivKeySecp256k1(secret))
+		}
+		own := sdk.Address(priv.PublicKey().Address())
+		kb := keys.NewInMemory()
+		armor, err := mintkey.EncryptArmorPrivKey(priv, "p1", "")
+		if err != nil {
+			return "done", nil
+		}
+		kp, err := kb.ImportPrivKey(armor, "p1", "p2")
+		if err != nil {
+			fail("import", "C19:foreign-key-not-importable", fmt.Sprintf("%s: %v", op, err))
+			return "done", fails
+		}
+		if !bytes.Equal(kp.GetAddress(), own) {
+			fail("same-address", "C19:imported-key-under-another-address", fmt.Sprintf("%s: the key pair reports address %x, the key's address is %x", op, kp.GetAddress(), own))
+		}
+		if _, err := kb.Get(own); err != nil {
+			fail("same-address", "C19:imported-key-not-found-under-its-address", fmt.Sprintf("%s: %v", op, err))
+		}
+		msg := msgBytes(int(seed % 7))
+		if sig, pub, err := kb.Sign(own, "p2", msg); err != nil || !priv.PublicKey().VerifyBytes(msg, sig) || !bytes.Equal(pub.RawBytes(), priv.PublicKey().RawBytes()) {
+			fail("usable", "C19:imported-key-does-not-sign", fmt.Sprintf("%s: signing under the key's own address: %v", op, err))
+		}
+		if _, err := kb.ImportPrivKey(armor, "p1", "p3"); err == nil {
+			fail("no-overwrite", "C19:second-import-accepted", fmt.Sprintf("%s: importing the same key again is accepted (and re-encrypts the stored key)", op))
+		}
+		if _, _, err := kb.Sign(own, "p2", msg); err != nil {
+			fail("no-overwrite", "C19:second-import-changed-passphrase", fmt.Sprintf("%s: after a second import attempt the key no longer opens with its passphrase: %v", op, err))
+		}
+		return "done", fails
 	case "mon.sigsplit": // C19: a signature binds its message - also after the genuine pair has been verified before
 		seed, _ := strconv.ParseInt(w[2], 10, 64)
 		rr := rand.New(rand.NewSource(seed))
